@@ -14,9 +14,12 @@ NOT_CLAIMED = {
 props = [json.loads(l) for l in open(os.path.join(ROOT, "properties.jsonl"))]
 checks = []
 claimed = set()
+ready = set(l.strip() for l in open(os.path.join(ROOT, "READY")) if l.strip())
 for p in sorted(glob.glob(os.path.join(ROOT, "harness", "c[0-9][0-9]", "verif.json"))):
     cfg = json.load(open(p))
     pid = os.path.basename(os.path.dirname(p)).upper()
+    if pid not in ready:
+        continue
     claimed.add(pid)
     checks.append({
         "property_id": pid,
